@@ -487,6 +487,73 @@ func init() {
 	})
 }
 
+func init() {
+	register(&Property{
+		ID:          "C07",
+		Patterns:    sqlPatterns,
+		HarnessDirs: []string{"internal/persistence/sql"},
+		NoReplay:    map[string]string{"HarnessC07": "arbitrary symbolic table of the database model", "HarnessC07Token": "database model"},
+		Assumptions: sqlAssumptions,
+		Outside:     []string{"page sizes above K+1 other than the default", "negative page sizes (C13)", "the internal consumers' loops (expand, traverse: covered with page size 1/2 in C09)", "the 100/101 boundary of the default page size"},
+		Runs: func(tier string) []Run {
+			a := sqlRun("iterate-with-interleaved-write", "HarnessC07", map[string]int64{"K": pick(tier, 2, 3)})
+			a.Reach = []string{"c07.iterated"}
+			b := sqlRun("malformed-token", "HarnessC07Token", map[string]int64{})
+			b.Reach = []string{"c07.token"}
+			return []Run{a, b}
+		},
+		Bounds: func(tier string) map[string]interface{} {
+			return map[string]interface{}{"rows": pick(tier, 2, 3), "page size": "symbolic 0..K+1 (0 = default 100)", "query": "all 2^4 shapes, symbolic names", "interleaved write": "none | insert of an arbitrary relationship (any free shard position) | deletion of one row, after page 1 or 2"}
+		},
+	})
+	register(&Property{
+		ID:          "C05",
+		Patterns:    sqlPatterns,
+		HarnessDirs: []string{"internal/persistence/sql"},
+		NoReplay:    map[string]string{"HarnessC05": "fault injection at the pop boundary of the database model", "HarnessC05Chunks": "fault injection at the pop boundary of the database model"},
+		Assumptions: sqlAssumptions,
+		Outside:     []string{"isolation from concurrent readers is reduced to 'every statement goes through the open transaction' (the database provides transactional isolation)", "crash recovery of the database itself; CockroachDB retry loop", "the handler-level wrapper (mapping inside the transaction)"},
+		Runs: func(tier string) []Run {
+			a := sqlRun("fault-or-malformed-at-any-position", "HarnessC05", map[string]int64{"K": pick(tier, 2, 3)})
+			a.Reach = []string{"c05.done"}
+			b := sqlRun("chunk-spanning", "HarnessC05Chunks", map[string]int64{})
+			b.Reach = []string{"c05.chunks.insert", "c05.chunks.delete"}
+			b.MaxSteps = 400_000_000
+			return []Run{a, b}
+		},
+		Bounds: func(tier string) map[string]interface{} {
+			return map[string]interface{}{"rows": pick(tier, 2, 3), "request": "0..2 inserts and 0..2 deletes with symbolic names, optionally one relationship without subject at any position", "fault": "none or the 1st..3rd terminal database operation fails", "chunk spanning": "3001 inserts (2 statements) and 101 deletes (2 statements) with the 1st or 2nd statement failing"}
+		},
+	})
+}
+
+func init() {
+	register(&Property{
+		ID:          "C06",
+		Patterns:    sqlPatterns,
+		HarnessDirs: []string{"internal/persistence/sql"},
+		NoReplay:    map[string]string{"HarnessC04": "database model", "HarnessC06Traverse": "database model"},
+		Assumptions: append([]string{"UUIDv5(network id, string) of the read-only mapper is not part of this check (C16 covers the mapper with an injective table)"}, sqlAssumptions...),
+		Outside:     []string{"histories are covered by one inductive step from an arbitrary two-network table", "check/expand isolation follows because the engines only see what Manager and Traverser return", "the uuid mapping table"},
+		Runs: func(tier string) []Run {
+			ov := map[string]string{}
+			for k, v := range dbOverrides {
+				ov[k] = v
+			}
+			ov["(*github.com/ory/keto/internal/driver/config.Config).StrictMode"] = "dbCfgStrictMode"
+			ov["(*github.com/ory/keto/internal/driver/config.Config).NamespaceManager"] = "dbCfgNamespaceManager"
+			a := sqlRun("write-and-list", "HarnessC04", map[string]int64{"K": pick(tier, 2, 3), "small": 0})
+			a.Reach = []string{"c04.written", "c04.listed"}
+			b := Run{Name: "traversals", Pkg: pkgSQL, Harness: "HarnessC06Traverse", Params: map[string]int64{"K": pick(tier, 2, 3)}, Overrides: ov, Reach: []string{"c06.expansion", "c06.rewrite"}}
+			return []Run{a, b}
+		},
+		OnlyMsgPrefix: "",
+		Bounds: func(tier string) map[string]interface{} {
+			return map[string]interface{}{"rows": pick(tier, 2, 3), "networks": 2, "operations": "create / delete / delete-by-query / transact under network A; list, exists, subject-set expansion and rewrite traversal under network A"}
+		},
+	})
+}
+
 func itoa(n int64) string {
 	s := ""
 	if n == 0 {
